@@ -141,12 +141,41 @@ Mutate ==
   \/ \E i \in 0..N : \E c \in Indicators : InsertIndicator(i, c)
   \/ \E i \in 1..N : \E b \in BreakReplacements : FlipBreak(i, b)
 
-Next == /\ steps < MaxSteps
-        /\ Mutate
-        /\ steps' = steps + 1
-        /\ UNCHANGED fam
+Next == \/ /\ steps < MaxSteps
+           /\ Mutate
+           /\ steps' = steps + 1
+           /\ UNCHANGED fam
+        \/ /\ steps = MaxSteps          \* stutter: lets a -simulate walk reach its -depth
+           /\ UNCHANGED vars
 
 Spec == Init /\ [][Next]_vars
+
+(* Random walk for `-simulate`: TLC's simulator evaluates the invariant (= prints) on EVERY  *)
+(* successor before choosing one, so the walk draws ONE mutation per step itself            *)
+(* (RandomElement is seeded by -seed); the successor relation is a subset of Mutate.        *)
+RandomMutate ==
+  \E k \in {RandomElement(1..6)} :
+  \E c \in {RandomElement(Indicators)} :
+  \E b \in {RandomElement(BreakReplacements)} :
+    IF N = 0 THEN InsertIndicator(0, c)
+    ELSE \E i \in {RandomElement(1..N)} : \E j \in {RandomElement(1..N)} :
+      CASE k = 1 -> Truncate(i - 1)
+        [] k = 2 -> DeletePiece(i)
+        [] k = 3 -> DuplicatePiece(i)
+        [] k = 4 -> IF i < j /\ doc[i] # doc[j] THEN SwapPieces(i, j)
+                    ELSE IF j < i /\ doc[i] # doc[j] THEN SwapPieces(j, i)
+                    ELSE DuplicatePiece(i)
+        [] k = 5 -> InsertIndicator(i, c)
+        [] k = 6 -> IF doc[i] \in Breaks /\ b # doc[i] THEN FlipBreak(i, b) ELSE InsertIndicator(i - 1, c)
+
+SimNext == \/ /\ steps < MaxSteps
+              /\ RandomMutate
+              /\ steps' = steps + 1
+              /\ UNCHANGED fam
+           \/ /\ steps = MaxSteps
+              /\ UNCHANGED vars
+
+SimSpec == Init /\ [][SimNext]_vars
 
 Emit == PrintT(<<"REPLAY", ToJson([fam |-> fam, p |-> doc, steps |-> steps])>>)
 =============================================================================
